@@ -55,6 +55,13 @@ impl Compactor {
         if selected_rowsets.len() <= 1 {
             return Ok(());
         }
+        #[cfg(risinglight_verif)]
+        let verif_args = [
+            ("table", table.table_id() as i64),
+            ("inputs", selected_rowsets.len() as i64),
+        ];
+        #[cfg(risinglight_verif)]
+        crate::verif::yield_point("compactor.selected", &verif_args).await;
 
         // sort RowSets by id so that the output RowSet will have old rows in the front and new rows
         // at the end.
@@ -137,6 +144,8 @@ impl Compactor {
         }
 
         let rowset = builder.finish();
+        #[cfg(risinglight_verif)]
+        crate::verif::yield_point("compactor.read", &verif_args).await;
 
         let mut changes: Vec<EpochOp> = vec![];
 
@@ -152,6 +161,8 @@ impl Compactor {
 
             let writer = RowsetWriter::new(&directory, self.storage.options.io_backend.clone());
             writer.create_dir().await?;
+            #[cfg(risinglight_verif)]
+            crate::verif::crash_point("rowset.mkdir.after", &directory, &[]);
             writer.flush(rowset).await?;
 
             let rowset = DiskRowset::open(
@@ -184,7 +195,11 @@ impl Compactor {
             })
         }));
 
+        #[cfg(risinglight_verif)]
+        crate::verif::yield_point("compactor.before_commit", &verif_args).await;
         self.storage.version.commit_changes(changes).await?;
+        #[cfg(risinglight_verif)]
+        crate::verif::yield_point("compactor.committed", &verif_args).await;
 
         match rowset_id {
             Some(rowset_id) => {
@@ -208,9 +223,23 @@ impl Compactor {
     pub async fn run(mut self) -> StorageResult<()> {
         loop {
             {
+                #[cfg(risinglight_verif)]
+                crate::verif::yield_point("compactor.wake", &[]).await;
                 let tables = self.storage.tables.read().clone();
                 let pin_version = self.storage.version.pin();
+                #[cfg(risinglight_verif)]
+                crate::verif::yield_point(
+                    "compactor.pinned",
+                    &[("epoch", pin_version.epoch as i64)],
+                )
+                .await;
                 for (_, table) in tables {
+                    #[cfg(risinglight_verif)]
+                    crate::verif::yield_point(
+                        "compactor.before_try_lock",
+                        &[("table", table.table_id() as i64)],
+                    )
+                    .await;
                     if let Some(_guard) = self
                         .storage
                         .txn_mgr
@@ -220,6 +249,8 @@ impl Compactor {
                         warn!("failed to compact: {:?}", err);
                     }
                 }
+                #[cfg(risinglight_verif)]
+                crate::verif::yield_point("compactor.pass_done", &[]).await;
                 match self.stop.try_recv() {
                     Ok(_) => break,
                     Err(tokio::sync::oneshot::error::TryRecvError::Closed) => break,
